@@ -618,7 +618,8 @@ from pyxel.inputs import load_image, load_image_v2, load_table, load_table_v2
 warnings.simplefilter('ignore')
 d = Path(tempfile.mkdtemp())
 VIOLATED, DETAIL = False, 'every loader reads every supported format back with the same shape and values'
-arrays = [np.arange(6.0).reshape(2, 3) + 0.5, np.arange(5.0).reshape(1, 5), np.arange(4.0).reshape(4, 1) - 1.5, np.array([[7.25]]), np.arange(12.0).reshape(3, 4) * 1e3]
+arrays = [np.arange(6.0).reshape(2, 3) + 0.5, np.arange(5.0).reshape(1, 5), np.arange(4.0).reshape(4, 1) - 1.5, np.array([[7.25]]), np.arange(12.0).reshape(3, 4) * 1e3,
+          np.arange(288.0).reshape(12, 24) / 8.0, np.arange(800.0).reshape(20, 40) * 0.25, np.arange(360.0).reshape(6, 60) + 0.5, np.arange(80.0).reshape(40, 2)]      # wide and long tables too
 def same(got, a):
     got = np.asarray(got, dtype=float)
     return got.shape == a.shape and np.array_equal(got, a)
@@ -646,5 +647,5 @@ for a in arrays:
         except Exception as e:
             VIOLATED, DETAIL = True, f'{kind} file of a {a.shape} array: {type(e).__name__}: {e}'; break
 """, "expect": "load_image, load_image_v2 and load_table read npy, FITS and text with the five delimiters back unchanged",
-    "bound": "5 arrays (2x3, 1x5, 4x1, 1x1, 3x4) x {npy, fits, txt and data files with tab / space / comma / bar / semicolon} x 3 loaders", "function": "pyxel/inputs/loader.py"}
+    "bound": "9 arrays (2x3, 1x5, 4x1, 1x1, 3x4, 12x24, 20x40, 6x60, 40x2) x {npy, fits, txt and data files with tab / space / comma / bar / semicolon} x 3 loaders", "function": "pyxel/inputs/loader.py"}
 AUDITS = {"formats.roundtrip": FORMATS_AUDIT}
